@@ -19,6 +19,7 @@ def durations_positive(steps):
 
 @contract("mxlpy:make_protocol")
 class make_protocol:
+    opts = {"branch_dict_set": True}  # with it the "key already present" path is discharged; 7 obligations of the new-key path remain
     requires = lambda steps: durations_positive(steps)
     ensures = lambda steps, result: [
         n_rows(result) == len(steps),
